@@ -101,10 +101,21 @@ def gen_case(rng, maxops, stats=None):
     maxlen = 200 if style == 'long' else rng.choice([0, 1, 2, 3, 5, 8, 12])
     s = rnd_str(rng, alpha, rng.randrange(0, maxlen + 1))
     init = list(s)
+    noarg = rng.random() < .04
+    if noarg:
+        s = []
     ops = []
     for _ in range(rng.randrange(1, maxops + 1)):
         r = rng.random()
         small = lambda: rnd_str(rng, alpha, rng.choice([0, 0, 1, 1, 2, 3, 5, maxlen]))
+        if len(s) < 3 and maxlen >= 3 and rng.random() < .5:
+            # keep the target long enough for start / middle / end / overlapping needles
+            v = rnd_str(rng, alpha, rng.randrange(3, maxlen + 4))
+            if rng.random() < .5:
+                ops.append('a' + hx(v)); s = v
+            else:
+                ops.append(rng.choice('cp') + hx(v)); s = s + v
+            continue
         if r < .10:
             v = small() if rng.random() < .8 else list(s)
             ops.append('a' + hx(v)); s = v
@@ -136,7 +147,7 @@ def gen_case(rng, maxops, stats=None):
             elif q < .7: v = small()
             ops.append(rng.choice('ke') + hx(v))
         elif r < .825:
-            o = rng.choice('ACPRMKE')
+            o = rng.choice('ACPRMKEyy')
             if o in 'CP' and len(s) > 120:
                 o = 'A'
             ops.append(o)
@@ -166,7 +177,7 @@ def gen_case(rng, maxops, stats=None):
             ops.append('f%d:%s' % (pos, ','.join(ps)))
             if pos <= len(s):
                 s = s[:pos] + text
-    return hx(init) + '|' + ' '.join(ops)
+    return ('N' if noarg else hx(init)) + '|' + ' '.join(ops)
 
 
 # ---------------------------------------------------------------- transcripts
@@ -266,6 +277,7 @@ CORPUS = [
     '61626364|A s l',                        # assign(s, s): strcpy read the block realloc had just released
     '616263|z9 A s c64 s',                   # assign(s, s) shrinking a larger allocation
     '616263|M K E R s l R C A s',            # the String itself as needle / comparand; rem(s, s) empties it
+    'N|l s h c6162 y s z5 y l c63 s',        # new(String) without arguments; copies
 ]
 
 
@@ -284,14 +296,30 @@ def exhaustive_cases(maxlen, alpha, nops):
     return out
 
 
+MENU = ['a', 'a6162', 'c', 'c61', 'c6261', 'C', 'A', 'z0', 'z1', 'z3', 'r61', 'r6162', 'r', 'R', 'f1:S62', 'f0:D7', 'f9:L7a', 'y']
+
+
+def exhaustive_ops(maxlen, nops):
+    """every initial string over {a,b} up to maxlen (and new without arguments), every sequence of nops operations of MENU,
+    observed by c_str/len/hash at the end"""
+    import itertools
+    strs, lvl = [[]], [[]]
+    for _ in range(maxlen):
+        lvl = [x + [c] for x in lvl for c in ALPHA3[:2]]
+        strs += lvl
+    inits = ['N'] + [hx(x) for x in strs]
+    return [i + '|' + ' '.join(seq) + ' s l h' for i in inits for seq in itertools.product(MENU, repeat=nops)]
+
+
 def run(ctx):
     quick = ctx.tier == 'quick'
     ctx.cov['rule'] = ('seeded operation histories (assign/concat/append/resize/rem/mem/cmp/eq/len/c_str/hash/print_to with literal, %s and %li '
                        'pieces at positions inside, at and beyond the end) over alphabets of 1, 2, 3 letters (so that repeated and overlapping '
                        'occurrences are frequent), awkward bytes (0x01, %, 0x7f..0xff, the allocator poison values) and strings up to 200 bytes; '
                        'rem/mem arguments are drawn per class: empty, equal to the target, at the start, in the middle, at the end, '
-                       'overlapping a second occurrence, absent (class counts in coverage.classes); plus every rem/mem over all strings <= 3 '
-                       'of {a,b} (quick) / <= 4 with two removals (thorough). A case is non-trivial when a rem deleted a non-empty '
+                       'overlapping a second occurrence, absent (class counts in coverage.classes); the String itself as argument of '
+                       'assign/concat/append/rem/mem/cmp/eq; new without arguments; copies; plus every rem/mem over all strings <= 3 '
+                       'of {a,b} (quick) / <= 4 with two removals (thorough) and every sequence of 2 (quick) / 3 (thorough) operations of an 18-entry menu from every string <= 2 / <= 3. A case is non-trivial when a rem deleted a non-empty '
                        'proper part of the string or a formatted write cut it strictly inside; distinct = distinct implementation transcripts')
     ctx.assumptions += ['C text tied by correspondence only: extracted Gallina model vs library built from the working tree; '
                         'white-box (src/String.c included with realloc/calloc/free redirected): allocation size and every byte of the '
@@ -323,7 +351,10 @@ def run(ctx):
     ex = exhaustive_cases(3, ALPHA3[:2], 1) if quick else exhaustive_cases(4, ALPHA3[:2], 2)
     for i in range(0, len(ex), 4000):
         d.feed(ex[i:i + 4000])
-    ctx.cov['classes'] = dict(sorted(stats.items()), exhaustive_rem_cases=len(ex))
+    ex2 = exhaustive_ops(2, 2) if quick else exhaustive_ops(3, 3)
+    for i in range(0, len(ex2), 4000):
+        d.feed(ex2[i:i + 4000])
+    ctx.cov['classes'] = dict(sorted(stats.items()), exhaustive_rem_cases=len(ex), exhaustive_op_sequences=len(ex2))
 
     if not quick:
         # the same stream under AddressSanitizer (exact allocations, no canaries)
